@@ -228,13 +228,13 @@ func zlit(n int64) string { return fmt.Sprintf("(%d)%%Z", n) }
 
 func (d *dumper) srv(si *network.ServerIdentity) string {
 	if si == nil {
-		return "(mkSrv 0 (-1)%Z [])"
+		return "(mkSrv 0 (-1)%Z [] true)"
 	}
 	var svc []string
 	for _, s := range si.ServiceIdentities {
 		svc = append(svc, zlit(d.key(s.Public)))
 	}
-	return fmt.Sprintf("(mkSrv %d %s %s)", d.id(si.ID), zlit(d.key(si.Public)), lib.List(svc))
+	return fmt.Sprintf("(mkSrv %d %s %s %s)", d.id(si.ID), zlit(d.key(si.Public)), lib.List(svc), lib.Bool(si.Public == nil))
 }
 
 func (d *dumper) rosterBare(ro *onet.Roster) string {
@@ -464,6 +464,14 @@ func rebuildRoster(s network.Suite, ro *onet.Roster, how string, rs rosterSpec) 
 		r2 := onet.NewRoster(l)
 		r2.ID = ro.ID
 		return r2
+	case "nokey":
+		// the roster as it comes off the wire when its last member carries no public key
+		// (the field is optional): same id, same members
+		l := append([]*network.ServerIdentity(nil), ro.List...)
+		c := *l[len(l)-1]
+		c.Public = nil
+		l[len(l)-1] = &c
+		return &onet.Roster{ID: ro.ID, List: l, Aggregate: ro.Aggregate}
 	case "other":
 		ms := append([]int(nil), rs.Members...)
 		ms = append(ms, 90000)
@@ -998,7 +1006,7 @@ func generate(rng *rand.Rand, tier string) []interface{} {
 	if !quick {
 		odd = 400
 	}
-	rebuilds := []string{"perm", "short", "other", "nil", "dup"}
+	rebuilds := []string{"perm", "short", "other", "nil", "dup", "nokey"}
 	for i := 0; i < odd; i++ {
 		n := 1 + rng.Intn(9)
 		sh := randomShape(rng, n, i%3)
@@ -1046,7 +1054,7 @@ func generate(rng *rand.Rand, tier string) []interface{} {
 	}
 	for r := 0; r < reps; r++ {
 		for _, dsc := range descs {
-			for _, rb := range []string{"same", "perm", "short", "dup"} {
+			for _, rb := range []string{"same", "perm", "short", "dup", "nokey"} {
 				n := 1 + rng.Intn(8)
 				ins = append(ins, input{Kind: "make", Desc: dsc, Rebuild: rb, Suite: suitesL[r%2], Roster: rosterSpec{Members: seqInts(n)},
 					Tree: treeSpec{Shape: randomShape(rng, n, r%3), Place: seqInts(n)}})
